@@ -18,7 +18,7 @@ StepOfImpl(s, r) ==
     ELSE LET x == S!CallStep(s, r) IN
          IF x.ok THEN [ok |-> Observed(x.s, r), st |-> x.s] ELSE [ok |-> FALSE, st |-> s]
 TraceLog == ndJsonDeserialize(IOEnv.TRACE)
-T == INSTANCE TraceBase WITH Log <- TraceLog, InitSt <- <<>>, StepOf <- StepOfImpl
+T == INSTANCE TraceBase WITH Log <- TraceLog, InitSt <- <<>>, StepOf <- StepOfImpl, ResyncAtNew <- TRUE
 Spec == T!Spec
 Done == T!Done
 ====
